@@ -8,6 +8,8 @@ WForced == [surv |-> 10, inter |-> 10, forced |-> 1]
 WInter  == [surv |-> 10, inter |-> 3, forced |-> -1]
 WMid    == [surv |-> 10, inter |-> 4, forced |-> -1]
 WMidS   == [surv |-> 4, inter |-> 10, forced |-> -1]
+WHalf   == [surv |-> 5, inter |-> 10, forced |-> -1]      \* exactly on the scalar cut 0.5 and on the pair cut (0.5, .)
+WZero   == [surv |-> 0, inter |-> 10, forced |-> -1]      \* weight exactly 0: passes when there is no cut
 Weights == {WOK, WLow, WNone, WForced, WInter, WMid, WMidS}
 Cuts    == {[form |-> "none", m1 |-> 0, m2 |-> 0], [form |-> "scalar", m1 |-> 5, m2 |-> 0], [form |-> "pair", m1 |-> 5, m2 |-> 5],
             [form |-> "pair", m1 |-> 5, m2 |-> 3], [form |-> "pair", m1 |-> 3, m2 |-> 5]}
@@ -22,5 +24,5 @@ InitMC == \E P \in 1..MaxP, A \in 1..MaxA :
              InitWith([P |-> P, A |-> A, w |-> w, wmin |-> wm, nsol |-> ns, off |-> of, bad |-> bd,
                        trig |-> t, writer |-> wrt, thrown |-> 1 + ((P + A + Cardinality(of)) % 3)])
 SpecMC == InitMC /\ [][Next]_vars
-WeightsSmall == {WOK, WLow, WMid, WMidS}
+WeightsSmall == {WOK, WLow, WMid, WHalf, WZero}
 ====
